@@ -197,20 +197,18 @@ VariantSane ==
     /\ (c.var = "bal" => Accept(c))
     /\ (c.var \notin {"free", "bal"} => ~Accept(c))
 
-\* adding the same amount to both sides preserves the verdict
+\* adding the same amount q to both sides preserves the verdict (q varies with the case)
 AddBothSides ==
-    LET ok == Accept(c) IN
-    \A q \in 1..2 :
-        /\ ok <=> Accept([c EXCEPT !.fee = @ + q, !.ins[1].c = @ + q])
-        /\ ok <=> Accept([c EXCEPT !.wds = Append(@, q),
-                                   !.outs = Append(@, [c |-> q, a |-> 0])])
-        /\ HasAssets(c.era) =>
-              /\ ok <=> Accept([c EXCEPT !.ins[1].a = @ + q,
-                                         !.outs = Append(@, [c |-> 0, a |-> q])])
-              /\ ok <=> Accept([c EXCEPT !.mint = @ + q,
-                                         !.outs = Append(@, [c |-> 0, a |-> q])])
-        /\ HasGov(c.era) =>
-              ok <=> Accept([c EXCEPT !.don = @ + q, !.ins[1].c = @ + q])
+    LET ok == Accept(c)
+        q  == 1 + (c.j % 3)
+    IN
+    /\ ok <=> Accept([c EXCEPT !.fee = @ + q, !.ins[1].c = @ + q])
+    /\ ok <=> Accept([c EXCEPT !.wds = Append(@, q), !.outs = Append(@, [c |-> q, a |-> 0])])
+    /\ HasAssets(c.era) =>
+          /\ ok <=> Accept([c EXCEPT !.ins[1].a = @ + q, !.outs = Append(@, [c |-> 0, a |-> q])])
+          /\ ok <=> Accept([c EXCEPT !.mint = @ + q, !.outs = Append(@, [c |-> 0, a |-> q])])
+    /\ HasGov(c.era) =>
+          ok <=> Accept([c EXCEPT !.don = @ + q, !.ins[1].c = @ + q])
 
 \* adding an amount to one side only turns an accepted transaction into a rejected one
 OneSideBreaks ==
@@ -222,11 +220,14 @@ OneSideBreaks ==
 Imbalance(t) == ConsumedCoin(t) - ProducedCoin(t)
 
 \* certificates that move no deposit do not move the balance; registration and
-\* deregistration of a credential cancel; a pool is paid for once
+\* deregistration of a credential cancel; a pool is paid for once.  (The three
+\* variants of a base transaction share certificates and parameters, so the
+\* "free" one speaks for all of them.)
 CertAlgebra ==
     LET im == Imbalance(c)
         With(ks) == Imbalance([c EXCEPT !.certs = @ \o ks])
     IN
+    c.var = "free" =>
     /\ \A kd \in NeutralKinds : With(<<kd>>) = im
     /\ With(<<"stake_reg", "stake_dereg">>) = im
     /\ With(<<"stake_reg">>) = im - c.pp.key
